@@ -94,7 +94,7 @@ CHECKS.update({
 CHECKS.update({
     "C17": ("exploration",
             "coverage-guided fuzzing (cargo-fuzz / libFuzzer) of structured operation sequences under AddressSanitizer, with result-validity and f64-reference oracles inside the targets",
-            "Target index_ops: bytes -> (dimension from a boundary-biased list 1..130 incl. non-multiples of every SIMD width, M 4..64, ef_construction, capacity 1..4096, metric, normalisation check on/off) + up to 48 operations on HnswVectorIndex: add (fresh/duplicate vector, fresh/duplicate id), parallel batch insert, search with k and ef from {1..10,000} boundary lists, search cancelled before the start, search cancelled by a helper thread after a generated spin, in-flight cancellation sections (a persistent helper released by a go flag right before the search raises the flag after a swept number of spins, four delays per section, then a freshly built two-vector index is searched from the same thread so that thread-local scratch meets a smaller graph), two concurrent readers; oracle = AddressSanitizer + at most k results, only added ids, ascending distances. Target simd_kernels: every kernel (scalar, SSE2, AVX2, AVX-512; private functions reached by including a copy of simd.rs taken from the working tree at build time) on slices of every length 0..130 (+ long ones) at generated offsets inside exact-size heap allocations (red zone right behind the last lane), compared with an f64 reference. Fixed-work campaigns (-runs) from a committed seed corpus, 4 jobs (quick) / 14 jobs (thorough).",
+            "Target index_ops: bytes -> (dimension from a boundary-biased list 1..130 incl. non-multiples of every SIMD width, M 4..64, ef_construction, capacity 1..4096, metric, normalisation check on/off) + up to 48 operations on HnswVectorIndex: add (fresh/duplicate vector, fresh/duplicate id), parallel batch insert, search with k and ef from {1..10,000} boundary lists, search cancelled before the start, search cancelled by a helper thread after a generated spin, in-flight cancellation sections (a persistent helper released by a go flag right before the search raises the flag after a swept number of spins, four delays per section, then a freshly built two-vector index is searched from the same thread so that thread-local scratch meets a smaller graph), two concurrent readers; oracle = AddressSanitizer + at most k results, only added ids, ascending distances. Target simd_kernels: every kernel (scalar, SSE2, AVX2, AVX-512; private functions reached by including a copy of simd.rs taken from the working tree at build time) on slices of every length 0..130 (+ long ones) at generated offsets inside exact-size heap allocations (red zone right behind the last lane), compared with an f64 reference. Fixed-work campaigns (-runs) from a committed seed corpus, 4 jobs (quick) / 8 jobs (thorough).",
             "The index itself runs with the kernel the CPU dispatch selects (AVX-512 on this machine); the other kernels are exercised at kernel level only. libFuzzer -seed pins a multi-job campaign only approximately; saved artifacts are the reproducible unit (./check replay <artifact>). Engine panics are counted, not reported (not undefined behaviour). Miri is not part of the registered commands (the index under Miri is too slow for a useful sequence length).",
             "DESIGN.md §3 C17, §2.8"),
 })
